@@ -35,6 +35,7 @@ var ends = []endKind{
 	{"error@0", []hn.Script{E, P, P}, 0, 0},
 	{"error@sink", []hn.Script{R, P, E}, 0, 0},
 	{"sink-pass", []hn.Script{P, R, P}, 1, 1},
+	{"ctx-like-error@sink", []hn.Script{P, P, hn.ErrCtx}, 0, 0},
 }
 
 func scenarios(tier string) []*hn.Scenario {
@@ -68,6 +69,9 @@ func scenarios(tier string) []*hn.Scenario {
 				return
 			}
 			for k := min; k < len(ends); k++ {
+				if p == 3 && k >= 6 {
+					continue // the ctx-like error has the synchronisation skeleton of error@sink: covered for 1-2 pipelines
+				}
 				rec(append(cur, k), k)
 			}
 		}
@@ -83,25 +87,31 @@ func scenarios(tier string) []*hn.Scenario {
 			name += ends[k].name + ","
 		}
 		for cancel := 0; cancel <= 2; cancel++ {
-			if p <= 2 {
+			hasCtxLike := false
+			for _, k := range v {
+				if k >= 6 {
+					hasCtxLike = true
+				}
+			}
+			if p <= 2 && !(p == 2 && hasCtxLike) {
 				// full square of thresholds
 				for thr := -1; thr <= p+1; thr++ {
 					for thrS := -1; thrS <= p+1; thrS++ {
 						if (thr == -1) != (thrS == -1) {
 							continue
 						}
-						if !thorough && p == 2 && cancel == 1 && (thr+thrS+vi)%2 != 0 {
+						if !thorough && p == 2 && cancel == 1 && (thr+thrS+vi)%3 != 0 {
 							continue
 						}
 						add(name, v, false, cancel, thr, thrS, 2)
 					}
 				}
 			} else {
-				if !thorough && vi%3 != 0 {
+				if !thorough && p == 3 && vi%3 != 0 {
 					continue
 				}
 				bound := 1
-				if thorough {
+				if thorough || p == 2 {
 					bound = 2
 				}
 				for _, pr := range [][2]int{{0, 0}, {c, s}, {c + 1, s}, {c, s + 1}, {p + 1, p + 1}} {
@@ -133,6 +143,70 @@ func body(sc *hn.Scenario) func() string {
 			vrt.Fail("%s", msg)
 		}
 		return o.Signature()
+	}
+}
+
+// ---- concurrent first use of an event type ---------------------------------------
+
+type firstUse struct {
+	Name string
+	A, B string
+}
+
+func firstUseScenarios() []firstUse {
+	out := []firstUse{{A: "setthr", B: "setthrs"}, {A: "setthr", B: "regpipe"}, {A: "setthrs", B: "regpipe"}, {A: "setthr", B: "setthr2"}}
+	for i := range out {
+		out[i].Name = fmt.Sprintf("first use of an event type: %s || %s, then getters and a Send", out[i].A, out[i].B)
+	}
+	return out
+}
+
+func firstUseBody(c firstUse) func() string {
+	return func() string {
+		log := &hn.Log{}
+		b, _ := el.NewBroker()
+		b.RegisterNode("m", hn.NewNode(log, "m", el.NodeTypeFormatter, hn.Pass, nil))
+		b.RegisterNode("s", hn.NewNode(log, "s", el.NodeTypeSink, hn.Drop, nil))
+		do := func(op string) {
+			var err error
+			switch op {
+			case "setthr":
+				err = b.SetSuccessThreshold("t", 1)
+			case "setthr2":
+				err = b.SetSuccessThreshold("t", 1)
+			case "setthrs":
+				err = b.SetSuccessThresholdSinks("t", 1)
+			case "regpipe":
+				err = b.RegisterPipeline(el.Pipeline{PipelineID: "p", EventType: "t", NodeIDs: []el.NodeID{"m", "s"}})
+			}
+			if err != nil {
+				vrt.Fail("%s failed: %v", op, err)
+			}
+		}
+		vrt.GoNamed("A", func() { do(c.A) })
+		vrt.GoNamed("B", func() { do(c.B) })
+		vrt.Join()
+		thr, ok1 := b.SuccessThreshold("t")
+		thrS, ok2 := b.SuccessThresholdSinks("t")
+		wantThr, wantThrS := 0, 0
+		for _, op := range []string{c.A, c.B} {
+			switch op {
+			case "setthr", "setthr2":
+				wantThr = 1
+			case "setthrs":
+				wantThrS = 1
+			}
+		}
+		if !ok1 || !ok2 || thr != wantThr || thrS != wantThrS {
+			vrt.Fail("after %s || %s both returned, the thresholds read back (%d,%v)/(%d,%v), last set were %d/%d", c.A, c.B, thr, ok1, thrS, ok2, wantThr, wantThrS)
+		}
+		if c.A == "regpipe" || c.B == "regpipe" {
+			st, err := b.Send(context.Background(), "t", "x")
+			if err != nil || len(st.Complete()) != 1 {
+				vrt.Fail("after %s || %s the registered pipeline does not receive events: complete=%v err=%v", c.A, c.B, st.Complete(), err)
+			}
+		}
+		return fmt.Sprint(thr, thrS)
 	}
 }
 
@@ -304,11 +378,20 @@ func main() {
 			for _, s := range scenarios(tier) {
 				n = append(n, s.Name)
 			}
-			return append(n, "BFS threshold-api")
+			n = append(n, "BFS threshold-api")
+			for _, c := range firstUseScenarios() {
+				n = append(n, c.Name)
+			}
+			return n
 		},
 		SplitScenario: func(tier string, scn int) bool { return scn < len(scenarios(tier)) },
 		RunJob: func(tier string, job hk.Job, deadline time.Time) *hk.Result {
 			scs := scenarios(tier)
+			if job.Scn > len(scs) {
+				c := firstUseScenarios()[job.Scn-len(scs)-1]
+				ex := &vrt.Explorer{Bound: -1, Permute: true, Body: firstUseBody(c)}
+				return hk.ExploreJob(prop, job, deadline, ex, c.Name)
+			}
 			if job.Scn >= len(scs) {
 				j := job
 				j.Scn = 0
@@ -325,7 +408,7 @@ func main() {
 			ex := &vrt.Explorer{Bound: sc.Bound, Body: body(sc)}
 			return hk.ExploreJob(prop, job, deadline, ex, sc.Describe())
 		},
-		Rule: "(a) outcome vectors (sink-ok / filtered / formatter-drop / error at root / error at sink / sink passing the event) of 1..3 pipelines x both thresholds over the full square -1(unset),0..P+1 (P<=2) or the boundary pairs around the vector's own counts (P=3) x shared sink ids x context never cancelled / cancelled at every scheduling point / cancelled before the call, all schedules within the preemption bound; oracle: Status ids, complete-sinks, warnings (pointer-equal to the nodes' own errors), completes+warnings=pipelines without cancel, error iff a threshold is missed, errors.Is(ctx.Err()) when entries are missing. (b) BFS over the threshold API (setters with -1..2 and an empty type, getters, RegisterPipeline, RemovePipeline, RemovePipelineAndNodes, Send on two event types) against a reference model, every getter compared after every step.",
+		Rule: "(a) outcome vectors (sink-ok / filtered / formatter-drop / error at root / error at sink / sink passing the event / sink failing with its own error that wraps context.DeadlineExceeded while Send's context is alive) of 1..3 pipelines x both thresholds over the full square -1(unset),0..P+1 (P<=2) or the boundary pairs around the vector's own counts (P=3) x shared sink ids x context never cancelled / cancelled at every scheduling point / cancelled before the call, all schedules within the preemption bound; oracle: Status ids, complete-sinks, warnings (pointer-equal to the nodes' own errors), completes+warnings=pipelines without cancel, error iff a threshold is missed, errors.Is(ctx.Err()) when entries are missing. (b) BFS over the threshold API (setters with -1..2 and an empty type, getters, RegisterPipeline, RemovePipeline, RemovePipelineAndNodes, Send on two event types) against a reference model, every getter compared after every step. (c) two first uses of an event type racing (setter || setter, setter || RegisterPipeline), ALL interleavings: both thresholds read back as set and the pipeline receives events.",
 		Assumptions: []string{
 			"traversal ends are reconstructed from the recording nodes' log by the C01 matching; a C01 failure is reported as such",
 			"'error wraps the context error' is only demanded when the Status shows missing entries or the context was cancelled before the call (otherwise the cancel may land after Send read ctx.Err())",
